@@ -163,8 +163,14 @@ def _fionread(fd):
         return -1
 
 
-class Deadlock(Exception):
-    pass
+class _StretchedSignal:
+    """The `signal` module as seen by pkgcore.ebuild.processor, with interval timers 120x longer."""
+
+    def __getattr__(self, name):
+        return getattr(signal, name)
+
+    def setitimer(self, which, seconds, *rest):
+        return signal.setitimer(which, seconds * 120 if seconds else 0, *rest)
 
 
 class RealPair:
@@ -206,6 +212,11 @@ class RealPair:
         self.eapi = eapi_mod.get_eapi("8")
         self.ecache = eclass_cache.cache(self.eclassdir)
         self.FakeRepo = FakeRepo
+        # clock seam: is_responsive arms a 10 s wall-clock timer around its read.  The model is
+        # untimed (a daemon that is going to answer does answer), so the timer is stretched to keep
+        # machine load from firing it in the middle of a reply.
+        if not isinstance(processor.signal, _StretchedSignal):
+            processor.signal = _StretchedSignal()
         # timing-only seam on the verification hook itself: a SIGTERM notice is handed to
         # pkgcore after the daemon has exited (the other order is excluded, see ASSUMPTIONS)
         if not getattr(processor, "_verif_c35_wrapped", False):
